@@ -5,6 +5,7 @@ import H3.Drv.C02
 import H3.Drv.C15
 import H3.Drv.C06
 import H3.Drv.C13
+import H3.Drv.C05
 open H3.Drv
 
 def dispatch (ws : List String) : String :=
@@ -17,6 +18,7 @@ def dispatch (ws : List String) : String :=
     else if e == "pint" || e == "huff" || e == "pstr" then H3.Drv.C15.handle ws
     else if e == "adv" then H3.Drv.C06.handle ws
     else if e == "set" then H3.Drv.C13.handle ws
+    else if e == "cell" then H3.Drv.C05.handle ws
     else "bad-op"
 
 partial def loop (h : IO.FS.Stream) (out : IO.FS.Stream) : IO Unit := do
